@@ -390,7 +390,9 @@ pub fn damage(rd: &Rendered, op: usize, r: &mut Rng) -> Option<(String, String)>
                 s.insert_str(line_start, r.pick(&["%YAML 1.2\n", "%TAG !e! tag:e,1:\n"]));
                 return Some((s, format!("directive inserted before the bare document at byte {line_start}")));
             }
-            if t.ends_with("...\n") {
+            // the text must end with a real document end marker line (not a scalar ending in "...")
+            let ends_with_marker = rd.marks.iter().any(|m| matches!(m.kind, MarkKind::DocEnd { line_start } if t[line_start..].starts_with("...") && !t[line_start..].trim_end_matches('\n').contains('\n')));
+            if ends_with_marker && t.ends_with('\n') {
                 return Some((format!("{t}%YAML 1.2\n"), "directive at the end of the stream with no document after it".into()));
             }
             None
